@@ -508,7 +508,7 @@ func c32Exec(c *Case) {
 				}
 			}
 			if allFull {
-				c.Oracle("error-though-every-answer-was-full", fmt.Sprintf("every range request was answered in full, yet: %v", err))
+				c.Oracle("honest-server-fetch-failed", fmt.Sprintf("every range request was answered in full, yet: %v", err))
 			} else if firstFull {
 				c.Oracle("failed-duplicate-changed-the-result", fmt.Sprintf("every chunk's first request was answered in full; only hedged duplicates failed, yet: %v", err))
 			}
@@ -684,6 +684,59 @@ func c32Gen(g *Gen) {
 			order = append(order, fmt.Sprintf("%d:1", dead), fmt.Sprintf("%d:0", dead))
 		}
 		g.Case(c32Line(res, 1, cs, 64, 1000, "aggr", Pick(r, []int{0, 0, 8, -1}), "ok", resp, order, 200))
+	}
+	// (e) aggressive hedging against an ALL-HONEST origin (every request answered in full): for one
+	// chunk the hedge is answered first and its original afterwards, while other chunks are still
+	// pending. Whatever the completion order, the result must be the exact resource.
+	for i := 0; i < g.N(12, 150); i++ {
+		nc := r.Range(4, 7)
+		cs := int64(r.Range(2, 5))
+		n := int(cs)*(nc-1) + r.Range(1, int(cs))
+		res := mkRes(n)
+		perm := make([]int, nc)
+		for k := range perm {
+			perm[k] = k
+		}
+		for k := nc - 1; k > 0; k-- {
+			j := r.Intn(k + 1)
+			perm[k], perm[j] = perm[j], perm[k]
+		}
+		order := []string{fmt.Sprintf("%d:0", perm[0]), fmt.Sprintf("%d:0", perm[1])}
+		// hedged chunks: hedge first, then the original; the remaining chunks stay pending meanwhile
+		nh := r.Range(1, nc-3)
+		for k := 0; k < nh; k++ {
+			c := perm[2+k]
+			if r.Chance(80) {
+				order = append(order, fmt.Sprintf("%d:1", c), fmt.Sprintf("%d:0", c))
+			} else {
+				order = append(order, fmt.Sprintf("%d:0", c), fmt.Sprintf("%d:1", c))
+			}
+		}
+		g.Case(c32Line(res, 1, cs, 64, 1000, "aggr", Pick(r, []int{0, 0, 16, -1}), "ok", nil, order, 200))
+	}
+	// (f) fewer slots than chunks and transport-level failures (connection dropped before any
+	// answer): at least as many dropped requests as there are slots, the other chunks still queued
+	// behind the semaphore. A failed attempt must give its slot back.
+	for i := 0; i < g.N(20, 200); i++ {
+		par := r.Range(1, 3)
+		nc := par + r.Range(1, 5)
+		cs := int64(r.Range(1, 4))
+		n := int(cs)*(nc-1) + r.Range(1, int(cs))
+		res := mkRes(n)
+		ndrop := par + r.Range(0, nc-par)
+		var resp []string
+		perm := make([]int, nc)
+		for k := range perm {
+			perm[k] = k
+		}
+		for k := nc - 1; k > 0; k-- {
+			j := r.Intn(k + 1)
+			perm[k], perm[j] = perm[j], perm[k]
+		}
+		for k := 0; k < ndrop && k < nc; k++ {
+			resp = append(resp, fmt.Sprintf("%d:0:d", perm[k]))
+		}
+		g.Case(c32Line(res, 1, cs, par, 1000, Pick(r, []string{"off", "never"}), 0, "ok", resp, nil, 200))
 	}
 	if g.Thorough() {
 		// exhaustive: 3 chunks, every assignment of {x, s1, w, e500} to the three initial attempts,
